@@ -27,7 +27,9 @@ type concProg struct {
 	GMP    int      `json:"gomaxprocs"` // > 0: runtime.GOMAXPROCS(GMP) around the program
 	EnvGMP int      `json:"envgmp"`     // > 0: the whole driver process was started with GOMAXPROCS=EnvGMP in its environment
 	Calls  []string `json:"calls"`
-	Reps   int      `json:"reps"` // each goroutine runs its call list this many times (0 = once), with fresh arguments each time
+	Reps   int      `json:"reps"`  // each goroutine runs its call list this many times (0 = once), with fresh arguments each time
+	Fresh  bool     `json:"fresh"` // a configuration created for this program; the CONCURRENT pass runs first (first uses of lazily built state race),
+	// all goroutines start every position together, and the reference values are computed afterwards
 }
 
 // a call that blocks forever poisons the process (its goroutines keep whatever they hold): after a hang no further program is run
@@ -43,6 +45,43 @@ func (d *driver) concCall(cfg *ipa.IPAConfig, op string, g, i int) []int {
 		c := cfg.Commit(f)
 		b := c.Bytes()
 		h.Write(b[:])
+	case "provez", "dividez", "ipaz":
+		// position i uses an index / point no earlier position used, and every goroutine uses the same one
+		z := uint8((i*37 + 11) % 256)
+		f := polyClass("random", 3, rnd)
+		switch op {
+		case "dividez":
+			q := cfg.PrecomputedWeights.DivideOnDomain(z, f)
+			for j := range q {
+				b := q[j].Bytes()
+				h.Write(b[:])
+			}
+			bc := cfg.PrecomputedWeights.ComputeBarycentricCoefficients(frFromBig(big.NewInt(int64(1000 + i))))
+			b := bc[int(z)].Bytes()
+			h.Write(b[:])
+		case "ipaz":
+			c := cfg.Commit(f)
+			pt := frFromBig(big.NewInt(int64(300 + i)))
+			p, err := ipa.CreateIPAProof(common.NewTranscript("conc-ipaz"), cfg, c, f, pt)
+			if err == nil {
+				var buf bytes.Buffer
+				p.Write(&buf)
+				h.Write(buf.Bytes())
+			}
+		default:
+			c := cfg.Commit(f)
+			g2 := polyClass("small", 4, rnd)
+			c2 := cfg.Commit(g2)
+			p, err := multiproof.CreateMultiProof(common.NewTranscript("conc-z"), cfg, []*banderwagon.Element{&c, &c2}, [][]fr.Element{f, g2}, []uint8{z, z + 1})
+			if err == nil {
+				var buf bytes.Buffer
+				p.Write(&buf)
+				h.Write(buf.Bytes())
+				y1, y2 := f[z], g2[z+1]
+				ok, _ := multiproof.CheckMultiProof(common.NewTranscript("conc-z"), cfg, p, []*banderwagon.Element{&c, &c2}, []*fr.Element{&y1, &y2}, []uint8{z, z + 1})
+				h.Write([]byte(fmt.Sprint(ok)))
+			}
+		}
 	case "prove", "bigprove":
 		n := 1 + (g+i)%6
 		if op == "bigprove" { // enough openings for more than a kilobyte of pending transcript data and for every grouping worker to get a batch
@@ -230,6 +269,13 @@ func (d *driver) runConcProgram(w emitter, pid int, line []byte) {
 	if concDead {
 		return
 	}
+	if p.Fresh {
+		nc, err := ipa.NewIPASettings()
+		if err != nil {
+			panic(err)
+		}
+		cfg = nc
+	}
 	if p.EnvGMP > 0 && runtime.GOMAXPROCS(0) != p.EnvGMP {
 		panic(fmt.Sprintf("conc program %d wants a process started with GOMAXPROCS=%d, this one has %d", pid, p.EnvGMP, runtime.GOMAXPROCS(0)))
 	}
@@ -245,13 +291,24 @@ func (d *driver) runConcProgram(w emitter, pid int, line []byte) {
 		}
 	}
 	w.emit(ev{"ev": "fp", "prog": pid, "when": "before", "cfg": fpConfig(cfg), "pkg": fpPackage()})
-	// sequential pass
+	// sequential pass (before the concurrent one, except for fresh-configuration programs)
 	seq := make([][][]int, K)
-	for g := 0; g < K; g++ {
-		seq[g] = make([][]int, len(p.Calls))
-		for i, op := range p.Calls {
-			seq[g][i] = d.concCall(cfg, p.Calls[(i+g)%len(p.Calls)], g, i)
-			_ = op
+	sequential := func() {
+		for g := 0; g < K; g++ {
+			seq[g] = make([][]int, len(p.Calls))
+			for i := range p.Calls {
+				seq[g][i] = d.concCall(cfg, p.Calls[(i+g)%len(p.Calls)], g, i)
+			}
+		}
+	}
+	if !p.Fresh {
+		sequential()
+	}
+	// per-position barriers for fresh programs: every goroutine starts position i at the same moment
+	bars := make([]sync.WaitGroup, len(p.Calls))
+	if p.Fresh {
+		for i := range bars {
+			bars[i].Add(K)
 		}
 	}
 	// concurrent pass
@@ -272,6 +329,10 @@ func (d *driver) runConcProgram(w emitter, pid int, line []byte) {
 			}()
 			start.Wait()
 			for i := range p.Calls {
+				if p.Fresh {
+					bars[i].Done()
+					bars[i].Wait()
+				}
 				conc[g][i] = d.concCall(cfg, p.Calls[(i+g)%len(p.Calls)], g, i)
 				returned.Add(1)
 			}
@@ -287,12 +348,15 @@ func (d *driver) runConcProgram(w emitter, pid int, line []byte) {
 		concDead = true
 		return
 	}
+	if p.Fresh {
+		sequential()
+	}
 	for g := 0; g < K; g++ {
 		if panics[g] != "" {
 			w.emit(ev{"ev": "concpanic", "prog": pid, "g": g, "panic": panics[g]})
 		}
 		for i := range p.Calls {
-			w.emit(ev{"ev": "conc", "prog": pid, "g": g, "i": i, "op": p.Calls[(i+g)%len(p.Calls)], "k": K, "gomaxprocs": p.GMP, "envgmp": p.EnvGMP, "seq": seq[g][i], "conc": conc[g][i]})
+			w.emit(ev{"ev": "conc", "prog": pid, "g": g, "i": i, "op": p.Calls[(i+g)%len(p.Calls)], "k": K, "gomaxprocs": p.GMP, "envgmp": p.EnvGMP, "fresh": p.Fresh, "seq": seq[g][i], "conc": conc[g][i]})
 		}
 	}
 	w.emit(ev{"ev": "fp", "prog": pid, "when": "after", "cfg": fpConfig(cfg), "pkg": fpPackage()})
